@@ -1,4 +1,5 @@
 """C20 - outcome does not depend on how the transport chops or delays bytes (Stream facet)."""
+import mutators
 import simlib
 
 KEEP = {"init", "call", "ret", "sk", "env", "ann", "cbb", "crash"}
@@ -8,4 +9,4 @@ FACETS = [("StreamTrace.tla", "StreamTrace.cfg", KEEP, None)]
 def run(ctx):
     gens = [{"module": "Gen_C20.tla", "cfg": "Gen_C20_udp.cfg", "name": "udp"},
             {"module": "Gen_C20.tla", "cfg": "Gen_C20_tcp_quick.cfg" if ctx.quick else "Gen_C20_tcp_thorough.cfg", "name": "tcp"}]
-    simlib.engine_check(ctx, gens, FACETS, labels=("c20.",))
+    simlib.engine_check(ctx, gens, FACETS, labels=("c20.",), selftests=mutators.STREAM)
